@@ -24,7 +24,8 @@ RULE = (
     "with the right or a wrong key, ECU reset, reads incl. F186, writes, routines, tester present, repeats of the previous request, "
     "suppress-bit variants). A database holds 1..3 such runs with different seeds, target URLs, ECU names (ecu / address.ecu filled by the "
     "harness as the docs prescribe) and properties_pre. Half of the recorded ECUs are a variant whose answers depend on the security level, which is mute "
-    "for 1-2 requests after a reset and (even seeds) answers reads of F190 with a well-formed reply for F191 (a reply the client reports as mismatch). Replay phase: DBUDSServer(db, ecu name and/or properties) behind "
+    "for 1-2 requests after a reset, (even seeds) answers reads of F190 with a well-formed reply for F191 (a reply the client reports as mismatch) and "
+    "(every third seed) answers although the suppress bit is set. Replay phase: DBUDSServer(db, ecu name and/or properties) behind "
     "UDSServerTransport.handle_request from the default state, same request sequence. Oracle: the reply bytes captured on the recording "
     "wire are reproduced one by one, silence where nothing was received, whichever other runs the database contains. Requests without "
     "reply in a non-default state are excluded from the main search (recorded known finding) and counted. Non-trivial: the history has a "
@@ -53,7 +54,7 @@ def run_s(draw, idx: int) -> dict[str, Any]:
                                                                                  {"p_session": 1.0, "optional_sessions": [2, 3, 4], "p_service": 1.0, "p_sub_function": 0.2, "p_identifier": 1.0, "p_correct_payload_format": 1.0},
                                                                                  {}])),
             "ops": draw(st.lists(st.one_of(vecu.op, vecu.op, st.sampled_from([("reset", 0, False), ("reboot", 0, 0), ("reboot", 1, 1), ("reboot", 2, 2), ("tp", False), ("f186",), ("raw", b"\x22\xf1\x90"), ("unlock", 0, "f186", False),
-                                                                               ("raw", b"\x22\xf1\x90"), ("repeat",)])), min_size=1, max_size=30)),
+                                                                               ("raw", b"\x22\xf1\x90"), ("repeat",), ("overlap", 0), ("overlap", 1), ("overlap", 2)])), min_size=1, max_size=30)),
             "flaky": draw(st.booleans()), "name": f"ecu{idx}", "url": f"tcp-lines://192.0.2.{idx + 1}:20162",
             "props": {"software_version": draw(st.sampled_from(["1.0", "2.1"])) + f"-{idx}", "variant": idx}}
 
@@ -112,7 +113,9 @@ def make_recorded_ecu(run: dict[str, Any]) -> Any:
             return r
 
     rp = RandomUDSServer.RandomnessParameters(**run["params"]) if run["params"] else None
-    return RebootingLevelECU(run["seed"], rp, None)
+    # every third of these ECUs ignores the suppress bit: it answers `3E 80` with `7E 00` - that reply is recorded like any other
+    beh = RandomUDSServer.Behavior(default_response_if_suppress=False) if run["seed"] % 3 == 0 else None
+    return RebootingLevelECU(run["seed"], rp, beh)
 
 
 def record(dbpath: Path, run: dict[str, Any], allow_silence_in_state: bool) -> dict[str, Any]:
@@ -131,6 +134,7 @@ def record(dbpath: Path, run: dict[str, Any], allow_silence_in_state: bool) -> d
         model = vecu.model_dict(server)
         wire: list[tuple[int, bytes, bytes | None]] = []
         tr = MemECUTransport(server, wire, 100000)
+        tr.latency = 0.0  # an exchange takes at least one scheduling round: other users of the client can queue up behind it
         db = DBHandler(dbpath)
         await db.connect()
         try:
@@ -143,12 +147,24 @@ def record(dbpath: Path, run: dict[str, Any], allow_silence_in_state: bool) -> d
             last_seed: tuple[int, bytes] | None = None
             flat = [e for o in run["ops"] for e in vecu.expand(tuple(o))]
             for o in flat:
+                if o[0] == "overlap":
+                    # two users of the client at once: a session change and the tester-present ping of the background worker; the
+                    # client serialises them (session change first), each is logged with the state it was sent in
+                    b1 = vecu.resolve(("dsc_offered", o[1], False), model, server.state.session, prev, last_seed)
+                    n0 = len(wire)
+                    await asyncio.gather(ecu.request(service.RawRequest(b1)), ecu.request(service.RawRequest(b"\x3e\x00")), return_exceptions=True)
+                    for sess_, data_, reply_ in wire[n0:]:
+                        out["transcript"].append((data_, reply_, sess_ != 1))
+                        prev = data_
+                        last_seed = vecu.next_last_seed(last_seed, data_, reply_)
+                    continue
                 b = vecu.resolve(tuple(o), model, server.state.session, prev, last_seed)
                 if not b:
                     continue
                 default_state = server.state.session == 1 and server.state.security_access_level is None
-                will_be_silent = b[0] in vecu.SUBFN_SIDS and len(b) >= 2 and b[1] >= 0x80
-                if will_be_silent and b[0] in (0x10, 0x11, 0x27):
+                suppress_bit = b[0] in vecu.SUBFN_SIDS and len(b) >= 2 and b[1] >= 0x80
+                will_be_silent = suppress_bit and server.behavior.default_response_if_suppress
+                if suppress_bit and b[0] in (0x10, 0x11, 0x27):
                     # a suppressed session change / reset / key: the ECU changes state without the client being able to notice;
                     # the statement's presupposition (both sides track the state identically) cannot hold
                     out["excluded_state_change"] = out.get("excluded_state_change", 0) + 1
